@@ -828,6 +828,14 @@ class MarkdownNormalizer(Renderer):
             and children[0].children.lower().startswith("www.")
         ):
             return element.dest[len("http://") :]
+        # Likewise the `mailto:` scheme of a bare e-mail address.
+        if (
+            element.dest.startswith("mailto:")
+            and len(children) == 1
+            and isinstance(children[0], inline.RawText)
+            and not children[0].children.lower().startswith("mailto:")
+        ):
+            return element.dest[len("mailto:") :]
         return element.dest
 
     def render_alert(
